@@ -32,8 +32,12 @@ class ReGen:
                     a = self.char()
                     items.append((a, a))
                 elif c == 1:
-                    lo = r.choice(b"aA0x")
-                    items.append((lo, min(255, lo + r.below(6))))
+                    if r.chance(1, 4):
+                        # ranges at the ends of the byte range
+                        items.append(r.choice([(0x80, 0xff), (0x00, 0xff), (0xf0, 0xff), (0xfe, 0xff), (0xff, 0xff), (0x00, 0x1f), (0x00, 0x00), (0x7f, 0x80)]))
+                    else:
+                        lo = r.choice(b"aA0xzZ")
+                        items.append((lo, min(255, lo + r.below(6))))
                 else:
                     items.append(r.choice(["w", "s", "d", "W", "S", "D"]))
             return ("class", r.chance(1, 4), items)
@@ -474,3 +478,55 @@ def sample_match(rng, sexp_tokens, maxlen=40):
         return node()[:maxlen]
     except Exception:
         return b""
+
+
+def widen_sexp(sexp):
+    """the wide form of an expression: every byte-consuming node is followed by a zero byte"""
+    toks = sexp.split()
+    out = []
+    i = 0
+    while i < len(toks):
+        if toks[i] == "(" and i + 1 < len(toks) and toks[i + 1] == "set":
+            depth, j = 0, i
+            while True:
+                if toks[j] == "(":
+                    depth += 1
+                elif toks[j] == ")":
+                    depth -= 1
+                    if depth == 0:
+                        break
+                j += 1
+            out += ["(", "cat"] + toks[i:j + 1] + ["(", "set", "(", "b", "0", ")", ")", ")"]
+            i = j + 1
+        else:
+            out.append(toks[i])
+            i += 1
+    return " ".join(out)
+
+
+def nullable(e):
+    """can the expression match the empty string?"""
+    k = e[0]
+    if k in ("empty", "start", "end", "wb", "nwb"):
+        return True
+    if k == "cat":
+        return nullable(e[1]) and nullable(e[2])
+    if k == "alt":
+        return nullable(e[1]) or nullable(e[2])
+    if k in ("star", "opt"):
+        return True
+    if k == "plus":
+        return nullable(e[1])
+    if k == "rep":
+        return e[2] == 0 or nullable(e[1])
+    return False
+
+
+def has_looped_nullable_rep(e):
+    """a counted repeat {n,m} with n >= 3 over a body that can match the empty string (known finding: compiled to a counting loop whose
+    empty iterations are discarded as duplicate fibers)"""
+    if not isinstance(e, tuple):
+        return False
+    if e[0] == "rep" and e[2] >= 3 and nullable(e[1]):
+        return True
+    return any(has_looped_nullable_rep(x) for x in e[1:] if isinstance(x, tuple))
